@@ -801,7 +801,7 @@ void campaign(Ctx& ctx)
 				Rec i2; i2.name = "iv2"; i2.a = {std::get<5>(t), std::get<6>(t), std::get<7>(t)}; c.recs.push_back(i2);
 				return c;
 			});
-		ctx.rc_campaign("two interventions", g, thorough ? 300000 : 700, 60, 7);
+		ctx.rc_campaign("two interventions", g, thorough ? 300000 : 2000, 60, 7);
 	}
 	if (!ctx.failed)
 	{
